@@ -2129,10 +2129,37 @@ static bool parse_ignored(TokenContext &ctx, Chunk &pc)
    }
 
    // Look for the ending comment and let it pass
-   if (  parse_comment(ctx, pc)
-      && !cpd.unc_off)
+   if (parse_comment(ctx, pc))
    {
-      return(true);
+      if (!cpd.unc_off)
+      {
+         return(true);
+      }
+
+      // a comment without the enabling text in front of it: part of the disabled line,
+      // together with the white space that led to it
+      if (pc.GetNlCount() == 0)
+      {
+         size_t  first = ctx.c.idx - pc.GetStr().size();
+         size_t  start = first;
+         UncText line;
+
+         while (  start > 0
+               && (  ctx.data[start - 1] == ' '
+                  || ctx.data[start - 1] == '\t'))
+         {
+            start--;
+         }
+
+         for (size_t idx = start; idx < ctx.c.idx; idx++)
+         {
+            line.append(ctx.data[idx]);
+         }
+
+         pc.Str() = line;
+         pc.SetType(CT_IGNORED);
+         return(true);
+      }
    }
    // Reset the chunk & scan to until a newline
    pc.Str().clear();
